@@ -40,7 +40,7 @@ META = {
         "cross-reference stream (dictionary entries and payload) and every stream's /Length are fault sites too; /Prev additionally "
         "gets the value 'offset of its own section'. structural faults: every dictionary entry, array element, stream-dictionary "
         "entry, top-level object and trailer entry x {null,int,real,name,string,array,dict,boolean,ref->self,ref->missing,"
-        "ref->ancestor(cycle)} (kinds of the value's own type skipped) plus key removal; payload faults: every stream truncated at "
+        "ref->ancestor(cycle), empty array, empty dict, 2**70, -1} (the representative of the value's own type skipped) plus key removal; payload faults: every stream truncated at "
         "every length and emptied (thorough: one byte replaced at every position by 00,FF,'<','('); file truncated at every byte. "
         "One fault per execution, each run through the listed entry points under a counted work budget (sys.monitoring "
         "PY_START+JUMP events <= 50 x the undamaged seed's count + 100000 + 2000 x file length). non-trivial = the damaged file differs from the seed "
@@ -60,13 +60,17 @@ META = {
     ],
 }
 
-KINDS = ["null", "int", "real", "name", "string", "array", "dict", "boolean", "refself", "refmissing", "refancestor", "remove"]
+KINDS = ["null", "int", "real", "name", "string", "array", "dict", "boolean", "refself", "refmissing", "refancestor", "remove",
+         "emptyarray", "emptydict", "bigint", "negint"]
+# extreme values of a type: applied even where the site already has that type
+EXTREME = {"emptyarray": "array", "emptydict": "dict", "bigint": "int", "negint": "int"}
 
 
 def kind_value(kind: str, num: int, ancestor: int) -> Any:
     return {
         "null": None, "int": 7, "real": 1.5, "name": N("Zz"), "string": b"zz", "array": [1, b"s"], "dict": {"Zz": 1},
         "boolean": True, "refself": Ref(num), "refmissing": Ref(9999), "refancestor": Ref(ancestor),
+        "emptyarray": [], "emptydict": {}, "bigint": 2**70, "negint": -1,
     }[kind]
 
 
@@ -182,7 +186,7 @@ def structural_faults(name: str) -> List[Tuple]:
                 if kind == "remove":
                     if removable:
                         out.append(("struct", num, path, kind))
-                elif kind != t and not (t == "ref" and kind == "refself" and False):
+                elif kind != t:
                     out.append(("struct", num, path, kind))
     for key in ["Root", "Info", "Size", "ID", "Encrypt", "Prev"]:
         if key == "Prev" and "writer" not in kw:
